@@ -34,13 +34,17 @@ CHECKS = {
     'C15': dict(
         kind='tet', props=['C15'],
         quick=[
-            # collapses in all four deletion modes after every deletion / collapse / gc history of length 1
-            dict(name='collapse', Depth=2, SeedIds=[1, 2, 3, 4, 5, 6, 7, 8, 9, 10],
-                 HistOps=['collapse_edge', 'delete_cell', 'delete_vertex', 'collect_garbage'],
+            # every collapsible halfedge of every seed in all four deletion modes
+            dict(name='collapse-1', Depth=1, SeedIds=[1, 2, 3, 4, 5, 6, 7, 8, 9, 10], HistOps=[],
                  TargetOps=['collapse_edge', 'collect_garbage'], q=1),
+            # ... and after every deletion / collapse history of length 1 (model: exhaustive; replay: sample)
+            dict(name='collapse-2', Depth=2, SeedIds=[2, 3, 5, 6, 8, 9],
+                 HistOps=['collapse_edge', 'delete_cell', 'delete_vertex'],
+                 TargetOps=['collapse_edge', 'collect_garbage'], q=1, sample=2500),
             # additions, accepted and rejected (valence guards, open lists, reuse of halfedges / halffaces)
             dict(name='additions', Depth=1, SeedIds=[1, 2, 8], Modes='ModesDefault', HistOps=[],
-                 TargetOps=['add_face3', 'add_face_v3', 'add_cell4', 'tet_add_cell_4', 'tet_add_cell_v', 'tet_add_cell_new'], q=1),
+                 TargetOps=['add_face3', 'add_face_v3', 'add_cell4', 'tet_add_cell_4', 'tet_add_cell_v', 'tet_add_cell_new'],
+                 q=1, sample=2000),
             # TetTopology / TriangleTopology for every constructor form and all labels
             dict(name='labels', Depth=1, SeedIds=[1, 2, 3, 5, 8, 9], Modes='ModesDefault', HistOps=[],
                  TargetOps=['delete_cell', 'collect_garbage'], q=3),
@@ -48,35 +52,41 @@ CHECKS = {
         thorough=[
             dict(name='collapse', Depth=3, SeedIds=[1, 2, 3, 4, 5, 6, 7, 8, 9, 10],
                  HistOps=['collapse_edge', 'delete_cell', 'delete_vertex', 'collect_garbage'],
-                 TargetOps=['collapse_edge', 'collect_garbage', 'delete_face', 'delete_edge'], q=1),
+                 TargetOps=['collapse_edge', 'collect_garbage', 'delete_face', 'delete_edge'], q=1, sample=60000),
             dict(name='additions', Depth=2, SeedIds=[1, 2, 5, 8], Modes='ModesAll', HistOps=['delete_cell', 'delete_face', 'collapse_edge'],
-                 TargetOps=['add_face3', 'add_face_v3', 'add_cell4', 'tet_add_cell_4', 'tet_add_cell_v', 'tet_add_cell_new'], q=1),
+                 TargetOps=['add_face3', 'add_face_v3', 'add_cell4', 'tet_add_cell_4', 'tet_add_cell_v', 'tet_add_cell_new'],
+                 q=1, sample=30000),
             dict(name='splits', Depth=3, SeedIds=[1, 2, 3, 5, 6], Modes='ModesAll', HistOps=['add_vertex', 'split_edge', 'split_face'],
-                 TargetOps=['split_edge', 'split_face', 'collapse_edge', 'collect_garbage'], q=1),
+                 TargetOps=['split_edge', 'split_face', 'collapse_edge', 'collect_garbage'], q=1, sample=20000),
             dict(name='labels', Depth=2, SeedIds=[1, 2, 3, 4, 5, 6, 7, 8, 9, 10], Modes='ModesAll', HistOps=['collapse_edge', 'delete_cell'],
                  TargetOps=['delete_cell', 'collect_garbage', 'collapse_edge'], q=3, sample=400),
         ],
-        sim=dict(SeedIds=[21, 22, 23, 7, 9, 10],
+        sim=dict(quick=dict(SeedIds=[21, 7, 9, 10], num=24, depth=14),
+                 thorough=dict(SeedIds=[21, 22, 23, 7, 9, 10], num=320, depth=40),
                  ops=DEL + ['collect_garbage', 'collapse_edge', 'collapse_edge', 'collapse_edge', 'tet_add_cell_4', 'tet_add_cell_v',
-                            'add_vertex', 'split_edge', 'split_face', 'enable_deferred', 'enable_fast'], q=1,
-                 quick=(24, 16), thorough=(300, 40)),
+                            'add_vertex', 'split_edge', 'split_face', 'enable_deferred', 'enable_fast'], q=1),
     ),
     'C16': dict(
         kind='hex', props=['C16'],
         quick=[
             dict(name='states', Depth=2, SeedIds=[1, 2, 3, 4, 5, 6],
-                 HistOps=['delete_cell', 'delete_vertex', 'collect_garbage'],
-                 TargetOps=['delete_cell', 'delete_face', 'collect_garbage', 'hex_add_cell_v'], q=2),
+                 HistOps=['delete_cell', 'collect_garbage'],
+                 TargetOps=['delete_cell', 'delete_face', 'delete_vertex', 'collect_garbage', 'hex_add_cell_v'], q=1, sample=3000),
+            dict(name='adjacency', Depth=1, SeedIds=[2, 3, 4, 5], Modes='ModesDefault', HistOps=[],
+                 TargetOps=['delete_cell'], q=2),
             # all 720 orderings of a valid list, and invalid lists, on a single cube and on a cube attached to another
             dict(name='permutations', Depth=2, SeedIds=[1, 2], Modes='ModesDefault', HistOps=['delete_cell'],
                  TargetOps=['add_cell_perm', 'add_cell_bad'], q=0),
-            dict(name='valences', Depth=1, SeedIds=[1, 2], Modes='ModesDefault', HistOps=[],
+            dict(name='valences', Depth=1, SeedIds=[1], Modes='ModesDefault', HistOps=[],
                  TargetOps=['add_face4', 'add_cell6'], q=0),
         ],
         thorough=[
             dict(name='states', Depth=3, SeedIds=[1, 2, 3, 4, 5, 6],
                  HistOps=['delete_cell', 'delete_vertex', 'delete_face', 'collect_garbage'],
-                 TargetOps=['delete_cell', 'delete_face', 'delete_edge', 'delete_vertex', 'collect_garbage', 'hex_add_cell_v'], q=2),
+                 TargetOps=['delete_cell', 'delete_face', 'delete_edge', 'delete_vertex', 'collect_garbage', 'hex_add_cell_v'],
+                 q=1, sample=40000),
+            dict(name='adjacency', Depth=2, SeedIds=[1, 2, 3, 4, 5, 6], Modes='ModesAll', HistOps=['delete_cell', 'collect_garbage'],
+                 TargetOps=['delete_cell', 'hex_add_cell_v'], q=2, sample=3000),
             dict(name='permutations', Depth=2, SeedIds=[1, 2, 6], Modes='ModesAll', HistOps=['delete_cell'],
                  TargetOps=['add_cell_perm', 'add_cell_bad'], q=0, variant='san'),
             dict(name='permutations-L', Depth=2, SeedIds=[4, 5], Modes='ModesDefault', HistOps=['delete_cell'],
@@ -84,10 +94,10 @@ CHECKS = {
             dict(name='valences', Depth=2, SeedIds=[1, 2], Modes='ModesAll', HistOps=['delete_cell'],
                  TargetOps=['add_face4', 'add_cell6'], q=0),
         ],
-        sim=dict(SeedIds=[7, 8, 3, 5],
+        sim=dict(quick=dict(SeedIds=[3, 5, 8], num=16, depth=12),
+                 thorough=dict(SeedIds=[7, 8, 3, 5], num=240, depth=30),
                  ops=DEL + ['delete_cell', 'delete_cell', 'collect_garbage', 'hex_add_cell_v', 'hex_add_cell_v', 'hex_add_cell_v',
-                            'enable_deferred', 'enable_fast'], q=1,
-                 quick=(16, 12), thorough=(200, 30)),
+                            'enable_deferred', 'enable_fast'], q=1),
     ),
 }
 
@@ -114,16 +124,17 @@ def write_cfg(path, c, kind, sim=False):
              '  TargetOps %s' % (('= ' + vlib.tla_set(c['TargetOps'])) if c['TargetOps'] else '<- NoOps'),
              '  MaxList = 3',
              '  Emit = "%s"' % ('sim' if sim else 'tree'),
-             'INVARIANT XReport', 'INVARIANT XSeedOK', 'INVARIANT XSeedInfo', 'INVARIANT SimEmit',
+             'INVARIANT XReport', 'INVARIANT XSeedOK', 'INVARIANT XSeedInfo', 'INVARIANT XSimTrace',
              'VIEW View', 'ACTION_CONSTRAINT EmitStep', 'CHECK_DEADLOCK FALSE']
     open(path, 'w').write('\n'.join(lines) + '\n')
 
 
 def run_tlc(cfgpath, workdir, workers=None, simulate=None, timeout=7200, heap='8g'):
     """TLC on OVMTetHexMC.  Parses ORG / EMIT / SIM / INFO / MBAD lines."""
+    os.makedirs(workdir, exist_ok=True)
     meta = os.path.join(workdir, 'meta-' + os.path.basename(cfgpath))
     shutil.rmtree(meta, ignore_errors=True)
-    cmd = ['java', '-XX:+UseParallelGC', '-Xmx' + heap, '-Xss16m', '-cp', vlib.JAR, 'tlc2.TLC',
+    cmd = ['java', '-XX:+UseSerialGC' if simulate else '-XX:+UseParallelGC', '-Xmx' + heap, '-Xss16m', '-cp', vlib.JAR, 'tlc2.TLC',
            '-workers', str(workers or vlib.NCPU), '-metadir', meta, '-noGenerateSpecTE', '-config', cfgpath]
     if simulate:
         cmd += ['-simulate', 'num=%d' % simulate['num'], '-depth', str(simulate['depth']), '-seed', str(simulate['seed'])]
@@ -404,7 +415,7 @@ def run_check(prop, tier, seed, replay=None):
                 failures.append(dict(msg='MODEL:' + r['error'], path=[], script='', x=0, model=True, detail=r['output'][-6000:]))
             for mb in r['mbads']:
                 failures.append(dict(msg='MODEL:' + mb['bad'], path=mb['path'], script='', x=0, model=True,
-                                     org=r['orgs'].get(tuple(mb['key'])), detail=json.dumps(mb)))
+                                     org=mb.get('script'), detail=json.dumps(mb)))
             if not trans:
                 continue
             opts = 'props=1 q=%d' % c.get('q', 1)
@@ -418,14 +429,27 @@ def run_check(prop, tier, seed, replay=None):
             absorb(agg)
         sim = cfg.get('sim')
         if sim:
-            num, depth = sim[tier]
-            c = dict(name='random', Depth=depth + 1, SeedIds=sim['SeedIds'], HistOps=sorted(set(sim['ops'])), TargetOps=[], Modes='ModesAll')
+            num, depth = sim[tier]['num'], sim[tier]['depth']
+            c = dict(name='random', Depth=depth + 1, SeedIds=sim[tier]['SeedIds'], HistOps=sorted(set(sim['ops'])), TargetOps=[], Modes='ModesAll')
             cp = os.path.join(work, 'sim.cfg')
             write_cfg(cp, c, kind, sim=True)
-            r = run_tlc(cp, work, workers=1, simulate=dict(num=num, depth=depth, seed=seed))
-            hist = r['sims']
-            for mb in r['mbads']:
-                failures.append(dict(msg='MODEL:' + mb['bad'], path=mb['path'], script='', x=0, model=True, detail=json.dumps(mb)))
+            # several independent simulation runs (TLC simulation is single-threaded)
+            nproc = min(8, max(1, num // 3))
+            per = (num + nproc - 1) // nproc
+            with ThreadPoolExecutor(max_workers=nproc) as ex:
+                runs = list(ex.map(lambda i: run_tlc(cp, os.path.join(work, 'sim%d' % i), workers=1,
+                                                     simulate=dict(num=per, depth=depth, seed=seed * 1000 + i), heap='2g'), range(nproc)))
+            hist, simwall = [], 0.0
+            for i, r in enumerate(runs):
+                simwall = max(simwall, r['wall'])
+                best = {}
+                for d in r['sims']:          # one report per state; keep the longest per behaviour
+                    if d['t'] not in best or len(d['path']) > len(best[d['t']]['path']):
+                        best[d['t']] = d
+                hist += [d for d in best.values() if len(d['path']) >= 2]
+                for mb in r['mbads']:
+                    failures.append(dict(msg='MODEL:' + mb['bad'], path=mb['path'], script='', x=0, model=True,
+                                         org=mb.get('script'), detail=json.dumps(mb)))
             scripts = [vlib.linear_script(h['script'] + h['path'], 'props=1 q=%d' % sim['q'], mesh=kind, silent_prefix=len(h['script']))
                        for h in hist]
             nsh = vlib.NCPU
@@ -436,7 +460,7 @@ def run_check(prop, tier, seed, replay=None):
                     (prop, len(hist), agg['lines'], agg['checked'], agg['bad'], agg['drift'], len(agg['crashes']), json.dumps(agg['info'])))
                 absorb(agg)
             cov['random_histories'] = len(hist)
-            cov['configs'].append(dict(c, tlc_wall_s=round(r['wall'], 1), histories=len(hist), steps_each=depth - 1))
+            cov['configs'].append(dict(c, tlc_wall_s=round(simwall, 1), histories=len(hist), steps_total=sum(len(h['path']) for h in hist)))
             if hist:
                 cov['samples'].append(dict(random_history=hist[0]['path'][:10]))
         if tier == 'thorough' or os.environ.get('VERIF_SELFTEST'):
